@@ -20,7 +20,7 @@ LEVEL_NOTE = ("theorems: list, restore, rm and empty factor through the same two
               "directory ($topdir for volume dirs, '/' for the home trash, the same lexical volume for --trash-dir); C20Cmd.commands_agree_on_entry: for one entry of a scanned directory the line of trash-list, the line and destination of trash-restore, the subject of trash-rm and the date of trash-empty DAYS are functions of the same text and base")
 RULE = ("exhaustive product: 49 .trashinfo content templates (4 of them with a look-alike twin entry: NFC/NFD, ligature, letter case) (absolute / relative Path, percent-escapes of every byte class, "
         "lower-case hex, malformed escapes, raw UTF-8 and non-UTF-8 bytes, duplicate keys, extra keys and sections, missing "
-        "header, CRLF, lone CR, trailing blanks, 14 date spellings) x 7 trash-dir kinds (home on / , home on its own volume, "
+        "header, CRLF, lone CR, trailing blanks, 14 date spellings) x 8 trash-dir kinds (home on / , home on its own volume, "
         ".Trash/uid, .Trash-uid, --trash-dir) ; per case five runs (list, restore listing, restore, rm by exact path, empty at "
         "the date boundary) and their mutual consistency")
 
@@ -70,7 +70,7 @@ def cases():
     return out
 
 
-KINDS = ["home-root", "home-own-volume", "top", "alt", "custom", "home-own-volume-cli", "home-root-cli"]
+KINDS = ["home-root", "home-own-volume", "top", "alt", "custom", "home-own-volume-cli", "home-root-cli", "custom-link"]
 
 
 def one(task):
@@ -91,8 +91,14 @@ def one(task):
         t, base, vol = R + b"/vol1/.Trash/%d" % uid, R + b"/vol1", R + b"/vol1"
     elif kind == "alt":
         t, base, vol = R + b"/vol1/.Trash-%d" % uid, R + b"/vol1", R + b"/vol1"
+    elif kind == "custom-link":
+        # the --trash-dir is named through a symbolic link that lives on another volume than the directory: every command
+        # takes the volume of the name AS SPELLED for relative Paths (list, restore, empty alike)
+        t, base, vol = R + b"/vol1/ct", R, R
+        w.link(R + b"/to-ct", t)
     else:
         t, base, vol = R + b"/vol1/ct", R + b"/vol1", R + b"/vol1"
+    spelled = t if kind != "custom-link" else R + b"/to-ct"
     path = ptempl.replace(b"{ABS}", vol + b"/w").replace(b"{REL}", b"w")
     w.dir(t, 0o700)
     w.dir(t + b"/files", 0o700)
@@ -109,7 +115,7 @@ def one(task):
         w.file(t + b"/files/" + tname, b"twin payload")
     w.dir(vol + b"/w")
     meta = {"entries": [], "tdirs": [(t, None)], "profile": "c20", "payload_kinds": ["file"]}
-    custom = {"userDirs": [t]} if kind == "custom" or cli else {}
+    custom = {"userDirs": [spelled]} if kind in ("custom", "custom-link") or cli else {}
 
     def run(cmd, opts=None, args=(), stdin=None, envx=None):
         e = dict(env)
@@ -133,8 +139,8 @@ def one(task):
         return {"problems": problems, "mismatch": mism, "tags": tags, "key": (shape, ptempl, date, kind)}
     ldate, lpath = m.group(1), m.group(2)
     ropts = {"path": b"/", "sort": "date"}
-    if kind == "custom" or cli:
-        ropts["trashDir"] = t
+    if kind in ("custom", "custom-link") or cli:
+        ropts["trashDir"] = spelled
     rr = run("restore", ropts, stdin=b"\n")
     mism += [("restore-listing", m_) for m_ in rr["mismatch"]]
     text = re.sub(rb"What file to restore \[0\.\.\d+\]: ", b"", rr["stdout"])
@@ -159,7 +165,7 @@ def one(task):
             if r2["obs_exit"] == 0 and r2["after_state"].get(dest, (None,))[0] != "f":
                 problems.append("restored somewhere else than the path shown: %r" % lpath)
     # trash-rm with the exact path shown by list (metacharacters bracketed)
-    if kind != "custom" and not cli:
+    if kind not in ("custom", "custom-link") and not cli:
         pat = b"".join((b"[" + bytes([c]) + b"]") if c in b"*?[" else bytes([c]) for c in lpath)
         if pat.startswith(b"/"):
             r3 = run("rm", args=[pat])
